@@ -93,7 +93,7 @@ def path_key(ap):
 
 
 class State:
-    __slots__ = ("disc", "vals", "calls", "visits", "trail", "decisions")
+    __slots__ = ("disc", "vals", "calls", "visits", "trail", "decisions", "hist")
 
     def __init__(self):
         self.disc = {}       # path_key -> variant name | ('not', frozenset)
@@ -102,6 +102,7 @@ class State:
         self.visits = {}
         self.trail = []
         self.decisions = {}  # call block -> bool
+        self.hist = []       # every discriminant constraint taken along the path, in order: (key, constraint)
 
     def clone(self):
         s = State()
@@ -111,6 +112,7 @@ class State:
         s.visits = dict(self.visits)
         s.trail = list(self.trail)
         s.decisions = dict(self.decisions)
+        s.hist = list(self.hist)
         return s
 
 
@@ -183,6 +185,10 @@ class Enumerator:
                 rv = s["rv"]
                 k = rv["k"]
                 v = None
+                pref = f"local:{l}"
+                if st.disc:
+                    for dk in [dk for dk in st.disc if dk == pref or dk.startswith(pref + ".")]:
+                        del st.disc[dk]
                 if k == "use":
                     v = self.val_of(st, rv["o"])
                 elif k == "ref" and all(e == "*" for e in rv["p"].get("p", [])):
@@ -244,6 +250,11 @@ class Enumerator:
                 bi = t["t"]
                 continue
             if k == "call":
+                # the call produces a fresh value: constraints recorded for an earlier execution (loops) are stale
+                pref = f"call:{bi}"
+                for dk in [dk for dk in st.disc if dk == pref or dk.startswith(pref + ".")]:
+                    del st.disc[dk]
+                st.decisions.pop(bi, None)
                 st.calls.append((bi, callee(t), t))
                 if self.on_call:
                     self.on_call(st, bi, t)
@@ -309,11 +320,13 @@ class Enumerator:
                     for cons, bb in branches[:-1]:
                         s2 = st.clone()
                         s2.disc[key] = cons
+                        s2.hist.append((key, cons))
                         self._walk(bb, s2, out)
                     if not branches:
                         return
                     cons, bb = branches[-1]
                     st.disc[key] = cons
+                    st.hist.append((key, cons))
                     bi = bb
                     continue
                 if v and v[0] in ("eqtest", "noteqtest") and t["ty"] == "bool":
